@@ -238,7 +238,9 @@ def execute(ch, conf):
 
             def sendto(data, addr=None):
                 # deviation: the interface refuses the frame
-                if ch.choose(2, "send fails"):
+                # (it uses up the whole deviation budget of the execution:
+                # one refused frame, everything else as by default)
+                if ch.choose(2, "send fails", [0, execute.fault_cost]):
                     raise OSError(105, "No buffer space available")
                 return plain_send(data, addr)
             m.transport.sendto = sendto
@@ -275,6 +277,9 @@ def execute(ch, conf):
     return dict(done=done, results=results, writes=writes, final=final,
                 scan=scan, positions=positions, given=given,
                 handouts=handouts, skipped=skipped)
+
+
+execute.fault_cost = 1
 
 
 def judge(conf, ch, obs, res):
@@ -402,6 +407,7 @@ def configs(ctx):
 
 def work(item, res):
     conf, bound, cap = item
+    execute.fault_cost = max(1, bound)
 
     def on_exec(ch, obs):
         res.count("evaluations")
